@@ -108,6 +108,10 @@ class _A1:
         # a mask that is not boolean (slice / positions) carries no length or index requirement
         if q in MASK_PARAMS and "is_bool_dtype(" in txt and pol is False and self._mentions(t, aliases):
             facts.update({"LEN", "IDX"})
+        # a slice carries no length or index requirement either
+        if q in MASK_PARAMS and pol is True and isinstance(t, ast.Call) and norm(t.func) == "isinstance" and len(t.args) == 2 \
+                and norm(t.args[1]) == "slice" and self._mentions(t.args[0], aliases):
+            facts.update({"LEN", "IDX"})
         # an input that is not a pandas Series has no index to compare
         if pol is False:
             conj = t.values if isinstance(t, ast.BoolOp) and isinstance(t.op, ast.And) else [t]
@@ -246,6 +250,18 @@ class _A1:
                     aliases.add(n.id)
 
     def _structural(self, e: ast.AST) -> bool:
+        # scalar attributes of a slice / array (start, stop, step, dtype, shape ...) are not views of the rows
+        names_outside_scalar_attrs = set()
+        scalar_bases = set()
+        for n in ast.walk(e):
+            if isinstance(n, ast.Attribute) and n.attr in ("start", "stop", "step", "dtype", "shape", "ndim", "size", "name") \
+                    and isinstance(n.value, ast.Name):
+                scalar_bases.add(id(n.value))
+        for n in ast.walk(e):
+            if isinstance(n, ast.Name) and id(n) not in scalar_bases:
+                names_outside_scalar_attrs.add(n.id)
+        if scalar_bases and not names_outside_scalar_attrs:
+            return False
         for n in ast.walk(e):
             if isinstance(n, ast.Call):
                 cn = call_name(n) or norm(n.func)
